@@ -3,7 +3,7 @@ import json, os
 from vlib import core
 
 THEOREMS = ["Props.C11." + t for t in [
-    "schema_ok", "codec_roundtrip", "request_roundtrip", "response_roundtrip", "write_ends_with_stop",
+    "schema_ok", "codec_roundtrip", "request_roundtrip", "response_roundtrip", "marshal_total", "write_ends_with_stop",
     "compress_decompress", "trailer_detected", "trailer_absent", "trailer_ignored_by_reader",
     "version_gate", "params_order", "fault_fails", "answer_honoured", "warnings_shown_on_failure"]]
 
